@@ -397,6 +397,10 @@ class K3State:
         # K2.__quote contract: None -> None; otherwise the result is None or a str
         I.assume(z3.Implies(Val.is_none(a[0]), Val.is_none(r.t)))
         I.assume(z3.Or(Val.is_none(r.t), Val.is_str(r.t)))
+        # ... and (K2.__quote.post[1], precondition default_marker is not None): a value that IS the
+        # default marker gives the static default as it is
+        I.assume(z3.Implies(z3.And(z3.Not(Val.is_none(a[0])), z3.Not(Val.is_none(a[4])), a[0] == a[4]),
+                            r.t == a[3]))
         return r
 
     def convert(self, I, args, kwargs, node):
@@ -711,7 +715,21 @@ def rctx_method(I, rec, name, args, kwargs):
     raise Unsupported('rcontext.%s in emitted code' % name)
 
 
-NATIVE = {SCOPE: scope_method, RCTX: rctx_method}
+def deque_method(I, rec, name, args, kwargs):
+    """the slot-filler chain the emitted code creates itself: `_deque((f,))`, then appendleft / pop"""
+    from .values import VTuple
+    items = rec.fields['items']
+    cur = list(items.items) if hasattr(items, 'items') else [items]
+    if name == 'appendleft':
+        rec.fields['items'] = VTuple([args[0]] + cur)
+        return NONE
+    if name == 'append':
+        rec.fields['items'] = VTuple(cur + [args[0]])
+        return NONE
+    raise Unsupported('deque.%s in emitted code' % name)
+
+
+NATIVE = {SCOPE: scope_method, RCTX: rctx_method, 'k3::deque': deque_method}
 
 
 # ---------------------------------------------------------------------------
@@ -1038,6 +1056,17 @@ def k3_prims():
         present, value = scope_visible(a[0], a[1])
         return _bound_value(present, value)
 
+    def chain_len(I, a, k, n):
+        """number of fillers in a slot chain the schema itself created (`_deque((f,))`, then appendleft);
+        unknown (a fresh integer) for any other value"""
+        from .values import _conc_ids
+        t = z3.simplify(to_any(a[0]).t)
+        for key, (oid, obj) in _conc_ids.items():
+            if isinstance(obj, VRec) and obj.cls == 'k3::deque' and t.eq(z3.simplify(to_any(obj).t)):
+                items = obj.fields['items']
+                return VInt(len(items.items) if hasattr(items, 'items') else 1)
+        return fresh(Ty('int'), 'chain_len_unknown')
+
     def attr_of(I, a, k, n):
         f = z3.Function('attr_' + _c(a[1]), Val, Val)
         return VAny(f(to_any(a[0]).t))
@@ -1123,7 +1152,7 @@ def k3_prims():
              scope_frame, template_pos, template_rpos, token_now, ext_count, ext_token, ext_last, ext_raised, ext_callee, ext_result, ext_arg, ext_out, ext_i18n, is_stream,
              is_rcontext, is_scope_copy, scope_arg_visible, attr_of, module_function, globals_visible,
              in_local, translate_arg, translate_result, normalize, i18n0,
-             holes_here, repeat_failed, repeat_kept, repeat_restored, loop_failed, iter_S0, iter_item, i18n_now, i18n_at, global_now, handler_calls, handler_configured,
+             holes_here, repeat_failed, repeat_kept, repeat_restored, loop_failed, iter_S0, iter_item, chain_len, i18n_now, i18n_at, global_now, handler_calls, handler_configured,
              translate_calls, quote_calls, errorinfo_of, token_at_eval, token_pos)}
 
 
@@ -1372,9 +1401,21 @@ def schema_contracts(specs):
                 for nm_ in ('get', 'getname'):
                     if nm_ in loads and nm_ not in stores:
                         inherited.append('%s reads `%s` without binding it from its own econtext' % (fd.name, nm_))
+            # ... and (C09/C10/C13) every emitted function that receives an output stream writes to
+            # THAT stream: the append helpers it calls are bound in the function itself (from its own
+            # `__stream` or a sub-stream it creates), never inherited through the closure -- a slot
+            # filler is called with the stream of the place of the slot, which may be a translation
+            # block's private list
+            if isinstance(fd, ast.FunctionDef) and '__stream' in [a_.arg for a_ in fd.args.args]:
+                loads = {n_.id for n_ in own_nodes(fd) if isinstance(n_, ast.Name) and isinstance(n_.ctx, ast.Load)}
+                stores = {n_.id for n_ in own_nodes(fd) if isinstance(n_, ast.Name) and isinstance(n_.ctx, ast.Store)}
+                for nm_ in sorted(loads):
+                    if (nm_ == '__append' or nm_.startswith('__append_') or nm_.startswith('__stream_')) \
+                            and nm_ not in stores:
+                        inherited.append('%s uses `%s` without binding it from its own stream' % (fd.name, nm_))
         static.append(('%s.scope_helpers_local' % s['id'], not inherited,
-                       'every emitted function with an econtext parameter binds the lookup helpers it uses '
-                       '(get, getname) from that econtext', {'template': s['text'], 'functions': inherited}))
+                       'every emitted function binds the lookup helpers it uses (get, getname) from its own '
+                       'econtext and the append helpers from its own stream', {'template': s['text'], 'functions': inherited}))
         static.append(('%s.handler.appends_record' % s['id'], not badh,
                        "the handler of every emitted render function appends one record to "
                        "rcontext['__error__'] and re-raises (records are ordered innermost first)",
